@@ -139,6 +139,18 @@ def job_query(payload):
             fail("address words must yield address-domain constants")
         if bytes.fromhex(sh[0]["v"]).decode() != v["sh"]:
             fail("%s rendering differs from show")
+        # membership of single addresses: inside, at both ends of every run, just outside
+        probes = sorted(set([a for lo_, hi_ in want for a in (lo_, hi_ - 1, hi_, max(0, lo_ - 1))] + [0]))[:12]
+        if probes:
+            mq = one("(|A| A " + " ".join("[A %d ?contains] [A %d !contains]" % (a, a) for a in probes) + ")", inp)
+            n += 1
+            if mq is None or len(mq["res"]) != 1:
+                fail("membership query failed")
+            else:
+                cells = [len(x["v"]) == 1 for x in mq["res"][0][1:]]
+                for k, a in enumerate(probes):
+                    if cells[2 * k] != (a in m1) or cells[2 * k + 1] != (a not in m1):
+                        fail("?contains with an address operand", address=a, pos=cells[2 * k], neg=cells[2 * k + 1], want=(a in m1)); break
         # binary relations against the second expression
         rel2 = one("(|A B| A B [A B ?contains] [A B ?overlaps] [A B ?eq] [A B !eq] [A == B] [A != B])", inp="q:" + common.hx(t1 + " " + t2))
         n += 1
